@@ -52,7 +52,7 @@ def faultLine (rs : RibSt) (ts : List Tok) : RibSt :=
   let rs := if g "start" == "1" ∧ g "app" == "1" ∧ g "q" == toString (lcReturned burst) then rs
     else rs.monfail "c14" s!"{desc} a call that queues a request did not return: {g "q"} of {burst} burst calls returned, StartSending returned: {g "start"}, all scripted and burst calls returned within the watchdog: {g "app"}"
   let rs :=
-    if cls == "eof" then rs.covr "cf.eof" else
+    if cls == "eof" && side == "recv" then rs.covr "cf.eof" else
     let rs := if g "recorded" == "1" then rs else rs.monfail "c14" s!"{desc} the client did not record the error"
     match Cl.await faulty with
     | .errors _ _ =>
